@@ -32,9 +32,40 @@ type leafCase struct {
 	pred   *ssa.BasicBlock // block the value flows from into the innermost phi (nil if v is not a phi)
 }
 
+type synthKey struct{ inner, factor ssa.Value }
+
+var synthDur = map[synthKey]ssa.Value{}
+
 // expandCases expands nested phis into (guards, value) leaves.
 func expandCases(v ssa.Value, inherited []guard, depth int) []leafCase {
 	phi, ok := v.(*ssa.Phi)
+	if !ok && depth <= 4 {
+		// `time.Duration(x) * time.Second` with the choice made on x (the conversion hoisted out of the branches): the
+		// same cases, each wrapped in the conversion again (synthetic values, one per (edge value, factor))
+		if bo, isBo := v.(*ssa.BinOp); isBo && bo.Op == token.MUL {
+			cvV, k := bo.X, bo.Y
+			if _, isC := constInt(cvV); isC {
+				cvV, k = k, cvV
+			}
+			if _, isC := constInt(k); isC {
+				if cv, isCv := cvV.(*ssa.Convert); isCv {
+					if inner, isPhi := cv.X.(*ssa.Phi); isPhi {
+						var out []leafCase
+						for _, lf := range expandCases(inner, inherited, depth) {
+							key := synthKey{lf.val, k}
+							sv, have := synthDur[key]
+							if !have {
+								sv = &ssa.BinOp{Op: token.MUL, X: &ssa.Convert{X: lf.val}, Y: k}
+								synthDur[key] = sv
+							}
+							out = append(out, leafCase{val: sv, guards: lf.guards, pred: lf.pred})
+						}
+						return out
+					}
+				}
+			}
+		}
+	}
 	if !ok || depth > 4 {
 		return []leafCase{{val: v, guards: inherited}}
 	}
@@ -413,7 +444,8 @@ func runC05(c *Ctx) {
 	c.rule("R3", "SubtractTTL writes ttl-delta only under ttl>delta, otherwise the constant 1", 2)
 	if sub := c.fn(relDnsutils, "", "SubtractTTL"); sub != nil {
 		delta := sub.Params[1]
-		eachInstr(sub, func(in ssa.Instruction) {
+		isDelta := func(v ssa.Value) bool { return sameAsParam(p, v, delta) }
+		eachInstrDeep(sub, func(_ *ssa.Function, in ssa.Instruction) {
 			st, ok := in.(*ssa.Store)
 			if !ok {
 				return
@@ -428,12 +460,12 @@ func runC05(c *Ctx) {
 			}
 			bo, ok := st.Val.(*ssa.BinOp)
 			good := false
-			if ok && bo.Op == token.SUB && bo.Y == ssa.Value(delta) {
+			if ok && bo.Op == token.SUB && isDelta(bo.Y) {
 				for _, g := range guardsOfInstr(in) {
-					if cm, ok := g.asCmp(); ok && sameLoadedPlace(cm.X, bo.X) && cm.Y == ssa.Value(delta) && cm.Op == token.GTR {
+					if cm, ok := g.asCmp(); ok && sameLoadedPlace(cm.X, bo.X) && isDelta(cm.Y) && cm.Op == token.GTR {
 						good = true
 					}
-					if cm, ok := g.asCmp(); ok && sameLoadedPlace(cm.Y, bo.X) && cm.X == ssa.Value(delta) && cm.Op == token.LSS {
+					if cm, ok := g.asCmp(); ok && sameLoadedPlace(cm.Y, bo.X) && isDelta(cm.X) && cm.Op == token.LSS {
 						good = true
 					}
 				}
@@ -446,7 +478,7 @@ func runC05(c *Ctx) {
 	if stf := c.fn(relDnsutils, "", "SetTTL"); stf != nil {
 		n, good := 0, true
 		why := ""
-		eachInstr(stf, func(in ssa.Instruction) {
+		eachInstrDeep(stf, func(g *ssa.Function, in ssa.Instruction) {
 			st, ok := in.(*ssa.Store)
 			if !ok {
 				return
@@ -455,8 +487,41 @@ func runC05(c *Ctx) {
 				return
 			}
 			n++
-			if st.Val != ssa.Value(stf.Params[1]) {
+			if !sameAsParam(p, st.Val, stf.Params[1]) {
 				good, why = false, "stores "+exprStr(st.Val)+" instead of the ttl parameter"
+			}
+			// callback form: the iteration helper invokes the callback for every non-OPT record
+			if fa, isFA := st.Addr.(*ssa.FieldAddr); isFA && g != stf {
+				if prm, isPrm := fa.X.(*ssa.Parameter); isPrm {
+					okG, helper := headerCallbackGuarded(g, prm)
+					if helper == nil || !okG {
+						good, why = false, "the callback's invocation is not recognised"
+					} else {
+						eachInstr(helper, func(y ssa.Instruction) {
+							ci, ok := y.(*ssa.Call)
+							if !ok || ci.Call.IsInvoke() {
+								return
+							}
+							if _, isP := ci.Call.Value.(*ssa.Parameter); !isP {
+								return
+							}
+							optEdge := func(iff *ssa.If, truth bool) bool {
+								gd := guard{Cond: iff.Cond, Truth: truth, If: iff}
+								if cm, ok := gd.asCmp(); ok && cm.Op == token.EQL {
+									if k, _ := loadedField(cm.X); k == "github.com/miekg/dns.RR_Header.Rrtype" {
+										if n, ok := constInt(cm.Y); ok && n == 41 {
+											return true
+										}
+									}
+								}
+								return false
+							}
+							if sk, _ := iterationCanSkip(y, optEdge); sk {
+								good, why = false, "the iteration helper skips some non-OPT record"
+							}
+						})
+					}
+				}
 			}
 			hdr := innermostLoopHeader(st.Block())
 			for _, g := range guardsOfInstr(st) {
@@ -723,9 +788,16 @@ func runC05(c *Ctx) {
 			if !ok || staticCallee(ci) != save {
 				return
 			}
-			for _, g := range guardsOfInstr(in) {
+			for _, g := range guardsWithin(in, dl) {
 				if cm, ok := g.asCmp(); ok && cm.X == ci.Call.Args[1] && isNilConst(cm.Y) && cm.Op == token.NEQ {
-					if cl, ok := cm.X.(*ssa.Call); ok && callName(cl) == "(*pkg/query_context.Context).R" {
+					acts := actualsWithin(cm.X, dl)
+					all := len(acts) > 0
+					for _, a := range acts {
+						if cl, ok := a.(*ssa.Call); !ok || callName(cl) != "(*pkg/query_context.Context).R" {
+							all = false
+						}
+					}
+					if all {
 						good = true
 					}
 				}
@@ -741,14 +813,14 @@ func runC05(c *Ctx) {
 		// the rest of the chain on copies of the context and hand back the copy's response. Only a miss stores: every
 		// store in Exec is guarded by `cached == nil` for the message the lookup returned.
 		good, n := true, 0
-		eachInstr(ex, func(in ssa.Instruction) {
+		eachInstrDeep(ex, func(_ *ssa.Function, in ssa.Instruction) {
 			ci, ok := in.(*ssa.Call)
 			if !ok || staticCallee(ci) != save {
 				return
 			}
 			n++
 			miss := false
-			for _, g := range guardsOfInstr(in) {
+			for _, g := range guardsWithin(in, ex) {
 				if cm, ok := g.asCmp(); ok && cm.Op == token.EQL && isNilConst(cm.Y) {
 					if e2, ok := cm.X.(*ssa.Extract); ok && e2.Index == 0 {
 						if cl, ok := e2.Tuple.(*ssa.Call); ok && staticCallee(cl) == get {
@@ -872,6 +944,15 @@ func checkTTLLoopsSkipOPT(c *Ctx) {
 			// only headers of arbitrary records (obtained through the RR interface) are in scope: literals of
 			// records being built and the OPT-specific DO-bit setter are not TTL rewrites of a message
 			if cl, ok := fa.X.(*ssa.Call); !ok || !cl.Call.IsInvoke() || cl.Call.Method.Name() != "Header" {
+				// callback form: the loop lives in a NEW iteration helper `each(m, func(hdr *dns.RR_Header))` and the
+				// store in the closure handed to it; the helper's invocation of the callback carries the OPT guard
+				if prm, isPrm := fa.X.(*ssa.Parameter); isPrm && fn.Parent() != nil {
+					if ok, where := headerCallbackGuarded(fn, prm); where != nil {
+						c.see(fn)
+						c.check(ok, "ttl-rewrite@"+funcName(fn), instrPos(in), "TTL store in a callback that the iteration helper invokes only for non-OPT headers",
+							"a record TTL is rewritten in a callback that "+funcName(where)+" also invokes for the OPT pseudo-record, whose TTL field holds the extended rcode and flags (DO bit)")
+					}
+				}
 				return
 			}
 			// OPT lives in the additional section only: loops that never touch Msg.Extra cannot meet it
@@ -1029,4 +1110,116 @@ func splitBoolPhiGuards(leaves []leafCase) []leafCase {
 		out = append(out, work...)
 	}
 	return out
+}
+
+// headerCallbackGuarded: closure cl (whose parameter prm is a record header) is handed to a NEW iteration helper; every
+// invocation of that callback in the helper passes rr.Header() of a record and is guarded by Rrtype != OPT of that very
+// header, and the helper walks the additional section. Returns the helper (nil: not the callback form).
+func headerCallbackGuarded(cl *ssa.Function, prm *ssa.Parameter) (bool, *ssa.Function) {
+	pi := -1
+	for i, q := range cl.Params {
+		if q == prm {
+			pi = i
+		}
+	}
+	par := cl.Parent()
+	if pi < 0 || par == nil {
+		return false, nil
+	}
+	var helper *ssa.Function
+	ai := -1
+	eachInstr(par, func(in ssa.Instruction) {
+		ci, ok := in.(*ssa.Call)
+		if !ok {
+			return
+		}
+		h := ci.Call.StaticCallee()
+		if !isNewHelper(h) {
+			return
+		}
+		for i, a := range ci.Call.Args {
+			if mc, ok := a.(*ssa.MakeClosure); ok && mc.Fn == ssa.Value(cl) {
+				helper, ai = h, i
+			}
+		}
+	})
+	if helper == nil || ai >= len(helper.Params) {
+		return false, nil
+	}
+	good, n, extra := true, 0, false
+	eachInstr(helper, func(in ssa.Instruction) {
+		if fa, ok := in.(*ssa.FieldAddr); ok {
+			if k, _ := fieldKey(fa); k == "github.com/miekg/dns.Msg.Extra" {
+				extra = true
+			}
+		}
+		ci, ok := in.(*ssa.Call)
+		if !ok || ci.Call.IsInvoke() || ci.Call.Value != ssa.Value(helper.Params[ai]) {
+			return
+		}
+		n++
+		if pi >= len(ci.Call.Args) {
+			good = false
+			return
+		}
+		hv := ci.Call.Args[pi]
+		if hc, ok := hv.(*ssa.Call); !ok || !hc.Call.IsInvoke() || hc.Call.Method.Name() != "Header" {
+			good = false
+			return
+		}
+		guarded := false
+		for _, g := range guardsOfInstr(in) {
+			cm, ok := g.asCmp()
+			if !ok || cm.Op != token.NEQ {
+				continue
+			}
+			if k, isC := constInt(cm.Y); !isC || k != 41 {
+				continue
+			}
+			if ld, ok := cm.X.(*ssa.UnOp); ok {
+				if fa2, ok := ld.X.(*ssa.FieldAddr); ok && fa2.X == hv {
+					if k, _ := fieldKey(fa2); k == "github.com/miekg/dns.RR_Header.Rrtype" {
+						guarded = true
+					}
+				}
+			}
+		}
+		if !guarded {
+			good = false
+		}
+	})
+	// the callback is used for nothing else in the helper
+	for _, r := range referrers(helper.Params[ai]) {
+		switch x := r.(type) {
+		case *ssa.Call:
+			if x.Call.Value != ssa.Value(helper.Params[ai]) {
+				good = false
+			}
+		case *ssa.DebugRef:
+		default:
+			good = false
+		}
+	}
+	if !extra {
+		return true, helper // never meets an OPT
+	}
+	return good && n > 0, helper
+}
+
+// sameAsParam: v is the parameter prm, or a load of the variable cell that holds it (a parameter captured by a closure
+// lives in a cell; the only store into the cell is the parameter itself).
+func sameAsParam(p *Prog, v ssa.Value, prm *ssa.Parameter) bool {
+	if v == ssa.Value(prm) {
+		return true
+	}
+	ld, ok := v.(*ssa.UnOp)
+	if !ok || ld.Op != token.MUL {
+		return false
+	}
+	al, ok := resolveAddr(ld.X).(*ssa.Alloc)
+	if !ok {
+		return false
+	}
+	vals := p.newTracer().storesTo(al)
+	return len(vals) == 1 && vals[0] == ssa.Value(prm)
 }
